@@ -158,12 +158,19 @@ class Ctx(object):
     def add_const(self):
         nm = self.name('K').upper()
         rng = self.rng
-        v = rng.choice([0, 1, 7, 42, 255, 256, 65535, 2 ** 31 - 1, rng.randint(0, 10 ** 6)])
-        if rng.random() < 0.5:
+        v = rng.choice([0, 1, 7, 42, 255, 256, 65535, 2 ** 31 - 1, rng.randint(0, 10 ** 6),
+                        2 ** 31, 2 ** 32 - 1, 2 ** 63 - 1, 2 ** 63, 2 ** 64 - 1])
+        if v >= 2 ** 31 and rng.random() < 0.75:
+            lit = rng.choice(['0x%x', '%dULL', '0x%XuLL']) % v
+            d = {'kind': 'const', 'name': nm, 'value': v, 'form': 'define',
+                 'text': '#define %s %s' % (nm, lit), 'ctext': '#define %s %s' % (nm, lit)}
+        elif rng.random() < 0.5:
+            v = v if v < 2 ** 31 else 7
             lit = rng.choice(['%d', '0x%x', '0%o' if v else '%d', '%dU', '%dL']) % v
             d = {'kind': 'const', 'name': nm, 'value': v, 'form': 'define',
                  'text': '#define %s %s' % (nm, lit), 'ctext': '#define %s %s' % (nm, lit)}
         else:
+            v = v if v < 2 ** 31 else 11
             T = rng.choice(['int', 'long', 'unsigned int', 'long long', 'short'])
             neg = rng.random() < 0.3 and T != 'unsigned int'
             if T == 'short':
